@@ -32,13 +32,13 @@ func (a *SatisfactionBiasListener) Spec_OnCriterionAdded(
 	generator utils.ValueGenerator,
 ) model.AddedCriterionParams {
 	pParams := params.(SatisfactionParameters)
-	listener, methodParams := a.getMethodParams(pParams)
+	listener, methodParams := a.Spec_getMethodParams(pParams)
 	addedParams := listener.OnCriterionAdded(criterion, referenceCriterion, methodParams, generator)
 	return satisfactionAddedCriterion{addedParams}
 }
 
 func (a *SatisfactionBiasListener) Spec_getMethodParams(pParams SatisfactionParameters) (satisfaction_levels.SatisfactionLevelsUpdateListener, satisfaction_levels.SatisfactionLevels) {
-	return a.satisfactionLevelsUpdateListeners.Get(pParams.Function, pParams.Params)
+	return a.satisfactionLevelsUpdateListeners.Spec_Get(pParams.Function, pParams.Params)
 }
 
 func (a *SatisfactionBiasListener) Spec_OnCriteriaRemoved(
@@ -46,19 +46,19 @@ func (a *SatisfactionBiasListener) Spec_OnCriteriaRemoved(
 	params model.MethodParameters,
 ) model.MethodParameters {
 	pParams := params.(SatisfactionParameters)
-	listener, methodParams := a.getMethodParams(pParams)
+	listener, methodParams := a.Spec_getMethodParams(pParams)
 	afterRemoveParams := listener.OnCriteriaRemoved(leftCriteria, methodParams)
-	return pParams.with(afterRemoveParams)
+	return pParams.Spec_with(afterRemoveParams)
 }
 
 func (a *SatisfactionBiasListener) Spec_RankCriteriaAscending(params *model.DecisionMakingParams) *model.WeightedCriteria {
-	weights := model.PrepareCumulatedWeightsMap(params, model.WeightIdentity)
-	return params.Criteria.SortByWeights(*weights)
+	weights := model.Spec_PrepareCumulatedWeightsMap(params, model.Spec_WeightIdentity)
+	return params.Criteria.Spec_SortByWeights(*weights)
 }
 
 func (a *SatisfactionBiasListener) Spec_Merge(params model.MethodParameters, addition model.MethodParameters) model.MethodParameters {
 	pParams := params.(SatisfactionParameters)
 	aParams := addition.(satisfactionAddedCriterion)
-	listener, methodParams := a.getMethodParams(pParams)
-	return pParams.with(listener.Merge(methodParams, aParams.Params))
+	listener, methodParams := a.Spec_getMethodParams(pParams)
+	return pParams.Spec_with(listener.Merge(methodParams, aParams.Params))
 }
